@@ -10,8 +10,9 @@ dump of the `VerifDump` hook) and the one it had *after* (`post`); the driver pa
 * `acc.mut   <pre> <goRes> <post> <mutation>`            one iteration of `mutatePaths`
 * `acc.paths <pre> <goRes> <post> <mutation> …`          one call of `mutatePaths` with the whole list
 * `acc.accounts <pre> <goRes> <post> <u|g|r token> …`    `mutateAccounts`
-* `acc.e2e <token> …`                                    a whole `apko build`: configuration tokens and
-  the observation of the emitted layer / image configuration (oracle only)
+* `acc.e2e <sel> <token> …`                              a whole `apko build`: configuration tokens and
+  the observation of the emitted layer / image configuration (oracle only); `sel` = `acc` or the
+  index of the path mutation that is judged
 -/
 namespace Apko.Driver.Accounts
 open Apko Apko.Path Apko.FS Apko.Formats Apko.Accounts
@@ -276,33 +277,38 @@ def e2eHomes (x : E2E) : List Text → List User → List Text
   | earlier, u :: rest =>
     e2eHome x earlier u ++ e2eHomes x (if u.home = devNull then earlier else earlier ++ [u.home]) rest
 
-def handleE2E (toks : List String) : String :=
+/-- `sel` = `acc` (accounts, homes, run-as) or the index of one path mutation -/
+def handleE2E (sel : String) (toks : List String) : String :=
   let x := parseE2E toks
   let cfg := parseAcc x.acc
-  let accR : List Text :=
-    match loadUsers x.oldPasswd, loadGroups x.oldGroup with
-    | some ou, some og =>
-      let wantU := ou ++ cfg.users.map specUser
-      let wantG := og ++ cfg.groups.map specGroup
-      (if loadUsers x.passwd = some wantU then [] else [tr "passwd"]) ++
-      (if (loadGroups x.group).map (·.map normGroup) = some (wantG.map normGroup) then [] else [tr "group"]) ++
-      e2eHomes x (ou.filterMap fun u => if u.home = devNull then none else some u.home) (cfg.users.map specUser) ++
-      (if x.configUser = (if cfg.runAs = [] then [] else
-          match wantU.find? (fun u => u.name = cfg.runAs) with
-          | some u => natToDec u.uid
-          | none => cfg.runAs) then [] else [tr "run-as"])
-    | _, _ => [tr "old-unparsable"]
-  let mr := x.muts.map fun m => (m, e2eMutation x m)
-  let reasons := accR ++ mr.flatMap (·.2)
-  let cls := accR.map (fun _ => (none : Option String)) ++ mr.flatMap fun p => p.2.map (e2eReasonClass x p.1)
-  "-\t" ++ verdict reasons ++ "\t" ++ classOf cls
+  if sel = "acc" then
+    let accR : List Text :=
+      match loadUsers x.oldPasswd, loadGroups x.oldGroup with
+      | some ou, some og =>
+        let wantU := ou ++ cfg.users.map specUser
+        let wantG := og ++ cfg.groups.map specGroup
+        (if loadUsers x.passwd = some wantU then [] else [tr "passwd"]) ++
+        (if (loadGroups x.group).map (·.map normGroup) = some (wantG.map normGroup) then [] else [tr "group"]) ++
+        e2eHomes x (ou.filterMap fun u => if u.home = devNull then none else some u.home) (cfg.users.map specUser) ++
+        (if x.configUser = (if cfg.runAs = [] then [] else
+            match wantU.find? (fun u => u.name = cfg.runAs) with
+            | some u => natToDec u.uid
+            | none => cfg.runAs) then [] else [tr "run-as"])
+      | _, _ => [tr "old-unparsable"]
+    "-\t" ++ verdict accR ++ "\t" ++ (if accR = [] then "-" else "unlisted")
+  else
+    match x.muts[parseNat sel]? with
+    | none => "-\tpass\t-"
+    | some m =>
+      let reasons := e2eMutation x m
+      "-\t" ++ verdict reasons ++ "\t" ++ classOf (reasons.map (e2eReasonClass x m))
 
 def handle (args : List String) : Option String :=
   match args with
   | ["acc.mut", pre, goRes, post, m] => some (handlePaths pre goRes post [m])
   | "acc.paths" :: pre :: goRes :: post :: ms => some (handlePaths pre goRes post ms)
   | "acc.accounts" :: pre :: goRes :: post :: toks => some (handleAccounts pre goRes post toks)
-  | "acc.e2e" :: toks => some (handleE2E toks)
+  | "acc.e2e" :: sel :: toks => some (handleE2E sel toks)
   | _ => none
 
 end Apko.Driver.Accounts
